@@ -52,6 +52,7 @@ import (
 	"github.com/sirupsen/logrus"
 
 	"verif/harness/lib"
+	"verif/harness/quiet"
 )
 
 const backoffMs = 4
@@ -77,7 +78,7 @@ func (t *dialTpt) GetPeerDialer(ctx context.Context, p peer.ID) (*dialer.DialerO
 	t.h.mu.Lock()
 	defer t.h.mu.Unlock()
 	if a, ok := t.h.peerMap[p]; ok {
-		return &dialer.DialerOpts{Address: a, Backoff: fastBackoff()}, nil
+		return &dialer.DialerOpts{Address: a, Backoff: t.h.bo()}, nil
 	}
 	return nil, nil
 }
@@ -161,7 +162,13 @@ type hist struct {
 	attempts                     map[string][]*attempt // per address, in arrival order
 	nsess                        int
 	calls                        []*call
+	boCfg                        func() *backoff.Backoff // the backoff of the dialer options this history uses (nil: fastBackoff)
+	ctorGate                     chan struct{}           // non-nil: the transport constructor parks here (the start-up window of the controller)
+	ctorAt                       chan struct{}           // closed when the constructor has built the transport
 	holds                        map[int]directive.Reference
+	holdVals                     map[int]map[uint32]link.MountedLink // per held peer: the values the directive currently has
+	holdEvs                      int
+	holdBad                      string // a value that is not a link local -> X was handed to a hold
 	asyncBad                     string
 	conns                        []*memConn
 	ctrlMu                       sync.Mutex
@@ -183,6 +190,13 @@ type remoteEnd struct {
 }
 
 func (h *hist) note(s string) { h.steps = append(h.steps, s) }
+
+func (h *hist) bo() *backoff.Backoff {
+	if h.boCfg != nil {
+		return h.boCfg()
+	}
+	return fastBackoff()
+}
 
 // addrName is the address string of address number a. Numbers >= 100 are symbolic NAMES: the dial
 // address "mem-hN-name-10k" resolves (in dialFn) to the remote address "mem-hN-addr-k", so the
@@ -460,7 +474,12 @@ func (h *hist) dialFn(ctx context.Context, as string) (*quic.Conn, net.Addr, err
 
 // ---- one history ------------------------------------------------------------------------------------------
 
-func (e *engine) newHist(gen string) *hist {
+func (e *engine) newHist(gen string) *hist { return e.newHistEarly(gen, false) }
+
+// newHistEarly: with early, the transport constructor parks until releaseCtor — directives issued in
+// between meet a controller without a transport (resolveDialTptAddr cannot skip; the checks of
+// dialTptAddrResolver.Resolve itself decide once the transport exists).
+func (e *engine) newHistEarly(gen string, early bool) *hist {
 	ctx, cancel := context.WithCancel(context.Background())
 	tb, err := testbed.NewTestbed(ctx, e.le, testbed.TestbedOpts{NoEcho: true})
 	if err != nil {
@@ -473,21 +492,32 @@ func (e *engine) newHist(gen string) *hist {
 		estGate: map[int]chan struct{}{}, lostGate: map[int]chan struct{}{}, clostGate: map[int]chan struct{}{},
 		estDone: map[int]bool{}, clostDone: map[int]bool{}, lostEv: map[int]bool{}, closedEv: map[int]bool{}, killed: map[int]bool{},
 		storeGate: map[storeKey]chan struct{}{}, storeDone: map[storeKey]int{}, attempts: map[string][]*attempt{},
-		holds: map[int]directive.Reference{}, lateReal: map[int]bool{}, flushedReal: map[int]bool{}, storeStale: map[int]bool{}}
+		holds: map[int]directive.Reference{}, holdVals: map[int]map[uint32]link.MountedLink{}, lateReal: map[int]bool{}, flushedReal: map[int]bool{}, storeStale: map[int]bool{}}
 	h.cond = sync.NewCond(&h.mu)
+	h.ctorAt = make(chan struct{})
+	if early {
+		h.ctorGate = make(chan struct{})
+	}
 	e.nh++
 	for a := 1; a <= 3; a++ {
 		h.addrNo[addrName(e.nh, a)] = a
 		h.addrNo[addrName(e.nh, 100+a)] = 100 + a
 	}
 	h.peerNo[tb.PeerID], h.peerID[1] = 1, tb.PeerID
-	for p := 2; p <= 4; p++ {
-		rt, err := transport_quic.NewTransport(ctx, e.le, 0, nil, newKey(), nullHandler{}, &transport_quic.Opts{}, nil)
+	// remote endpoints 2..4 have their own keys; endpoint 1 presents the LOCAL key (a self-dial)
+	for p := 1; p <= 4; p++ {
+		key := tb.PrivKey
+		if p != 1 {
+			key = newKey()
+		}
+		rt, err := transport_quic.NewTransport(ctx, e.le, 0, nil, key, nullHandler{}, &transport_quic.Opts{}, nil)
 		if err != nil {
 			panic(err)
 		}
 		h.remote[p] = rt
-		h.peerNo[rt.GetPeerID()], h.peerID[p] = p, rt.GetPeerID()
+		if p != 1 {
+			h.peerNo[rt.GetPeerID()], h.peerID[p] = p, rt.GetPeerID()
+		}
 	}
 	e.cur.Store(h)
 	ctor := func(cctx context.Context, le *logrus.Entry, pkey crypto.PrivKey, hd transport.TransportHandler) (transport.Transport, error) {
@@ -497,18 +527,58 @@ func (e *engine) newHist(gen string) *hist {
 			return nil, err
 		}
 		h.lt = lt
+		close(h.ctorAt)
+		if h.ctorGate != nil {
+			select {
+			case <-h.ctorGate:
+			case <-cctx.Done():
+				return nil, cctx.Err()
+			}
+		}
 		return &dialTpt{Transport: lt, h: h}, nil
 	}
 	info := controller.NewInfo("verif/dial-transport", semver.MustParse("0.0.1"), "quic transport under test")
 	h.ctrl = transport_controller.NewController(e.le, tb.Bus, info, tb.PeerID, false, ctor)
 	go func() { _ = tb.Bus.ExecuteController(ctx, h.ctrl) }()
-	gctx, gcancel := context.WithTimeout(ctx, 30*time.Second)
+	if early {
+		select {
+		case <-h.ctorAt:
+		case <-time.After(30 * time.Second):
+			panic("controller did not call the transport constructor")
+		}
+		h.query()
+		return h
+	}
+	h.awaitTransport()
+	h.query()
+	return h
+}
+
+func (h *hist) awaitTransport() {
+	gctx, gcancel := context.WithTimeout(h.ctx, 30*time.Second)
 	defer gcancel()
 	if _, err := h.ctrl.GetTransport(gctx); err != nil {
 		panic("controller did not construct the transport: " + err.Error())
 	}
-	h.query()
-	return h
+}
+
+// releaseCtor ends the start-up window: the constructor returns, Execute publishes the transport.
+func (h *hist) releaseCtor() {
+	if h.ctorGate != nil {
+		close(h.ctorGate)
+		h.ctorGate = nil
+		h.awaitTransport()
+	}
+}
+
+// busIdle waits (bounded) until the scheduler reports no runnable goroutine: what was handed to the
+// bus has been processed as far as it can be.
+func (h *hist) busIdle() {
+	quiet.Settle(func() int {
+		h.mu.Lock()
+		defer h.mu.Unlock()
+		return h.nsess
+	}, 300*time.Microsecond, 4, 150*time.Millisecond)
 }
 
 func (h *hist) fail(s string) {
@@ -984,7 +1054,7 @@ func (h *hist) dial(x, a int) *call {
 	cctx, c.cancel = context.WithCancel(h.ctx)
 	h.note(fmt.Sprintf("call%d=DialPeerAddr(peer %d, addr %d)", c.id, x, a))
 	go func() {
-		lnk, err := h.ctrl.DialPeerAddr(cctx, h.peerID[x], &dialer.DialerOpts{Address: addrName(h.e.nh, a), Backoff: fastBackoff()})
+		lnk, err := h.ctrl.DialPeerAddr(cctx, h.peerID[x], &dialer.DialerOpts{Address: addrName(h.e.nh, a), Backoff: h.bo()})
 		h.finishCall(c, lnk, err)
 	}()
 	// the reference must have been taken before the history goes on (or the call has returned already)
@@ -1035,13 +1105,42 @@ func (h *hist) hold(x, a int) {
 	h.note(fmt.Sprintf("hold(peer %d, addr %d)", x, a))
 	h.mu.Lock()
 	h.peerMap[h.peerID[x]] = addrName(h.e.nh, a)
+	h.holdVals[x] = map[uint32]link.MountedLink{}
 	h.mu.Unlock()
-	_, ref, err := h.tb.Bus.AddDirective(link.NewEstablishLinkWithPeer(h.peerID[1], h.peerID[x]), nil)
+	// the handler states the clause on every value the directive ever gets: a link local -> X
+	want, local := h.peerID[x], h.peerID[1]
+	hd := directive.NewCallbackHandler(func(av directive.AttachedValue) {
+		ml, ok := av.GetValue().(link.MountedLink)
+		h.mu.Lock()
+		defer h.mu.Unlock()
+		if h.dead {
+			return
+		}
+		if !ok || ml == nil {
+			h.holdBad = fmt.Sprintf("the EstablishLinkWithPeer(local, peer %d) directive got a value that is not a link", x)
+			return
+		}
+		if ml.GetRemotePeer() != want || ml.GetLocalPeer() != local {
+			h.holdBad = fmt.Sprintf("the EstablishLinkWithPeer(local, peer %d) directive got a link from peer %d to peer %d", x, h.peerNo[ml.GetLocalPeer()], h.peerNo[ml.GetRemotePeer()])
+		}
+		h.holdVals[x][av.GetValueID()] = ml
+		h.holdEvs++
+		h.cond.Broadcast()
+	}, func(av directive.AttachedValue) {
+		h.mu.Lock()
+		delete(h.holdVals[x], av.GetValueID())
+		h.holdEvs++
+		h.cond.Broadcast()
+		h.mu.Unlock()
+	}, nil)
+	_, ref, err := h.tb.Bus.AddDirective(link.NewEstablishLinkWithPeer(h.peerID[1], h.peerID[x]), hd)
 	if err != nil {
 		h.fail("AddDirective(EstablishLinkWithPeer) failed: " + err.Error())
 		return
 	}
+	h.mu.Lock()
 	h.holds[x] = ref
+	h.mu.Unlock()
 	h.waitKey(x, a)
 	h.push(fmt.Sprintf("hold:%d:%d", x, a))
 	h.settle()
@@ -1077,10 +1176,16 @@ func (h *hist) tptDir(src, dst int, taddr string, a int, expect bool) *call {
 	if taddr != "" {
 		hx = hex.EncodeToString([]byte(taddr))
 	}
+	if h.ctorGate != nil {
+		// start-up window: the directive is with the controller (whose transport does not exist yet)
+		h.busIdle()
+		h.note("transport-constructed")
+		h.releaseCtor()
+	}
 	if expect {
 		h.waitKey(dst, a)
 	} else {
-		time.Sleep(3 * time.Millisecond)
+		h.busIdle()
 	}
 	h.push(fmt.Sprintf("tpt:%d:%d:%d:%s", c.id, src, dst, hx))
 	h.settle()
@@ -1150,6 +1255,27 @@ func (h *hist) inbound(a, p int) {
 	}
 	h.push(fmt.Sprintf("in:%d:%d", a, p))
 	h.settle()
+}
+
+// answerStray answers EVERY parked dial attempt (any address string) by endpoint who; reports whether
+// there was one. Used where the property says no dial attempt may exist at all.
+func (h *hist) answerStray(who int) bool {
+	h.mu.Lock()
+	var ats []*attempt
+	for _, l := range h.attempts {
+		for _, at := range l {
+			if !at.done {
+				at.done = true
+				ats = append(ats, at)
+			}
+		}
+	}
+	h.mu.Unlock()
+	for _, at := range ats {
+		h.note(fmt.Sprintf("answer(stray dial attempt at %q, by peer %d)", at.addr, who))
+		at.ch <- who
+	}
+	return len(ats) > 0
 }
 
 // closeLocal calls Close on the local link object (a Close() from outside the modelled code).
@@ -1351,6 +1477,11 @@ func (h *hist) monitors(o obs, quiet bool) (string, string) {
 	key := "dialsys.hist:" + h.gen
 	lds := h.ctrl.VerifLinkDialers()
 	tbl := h.lt.VerifSnapshotLinks()
+	_, byPeer := h.ctrl.VerifSnapshot()
+	peerLinks := map[int][]link.Link{}
+	for x, pid := range h.peerID {
+		peerLinks[x] = h.ctrl.GetPeerLinks(pid)
+	}
 	h.mu.Lock()
 	defer h.mu.Unlock()
 	hist := strings.Join(h.steps, "; ")
@@ -1386,8 +1517,33 @@ func (h *hist) monitors(o obs, quiet bool) (string, string) {
 			}
 		}
 	}
+	// (d) "the dial is not counted as a link to X": what the controller files / reports / hands to an
+	// EstablishLinkWithPeer(X) directive under X is a link whose authenticated remote peer is X
+	if h.holdBad != "" {
+		return h.holdBad + " (history: " + hist + ")", key
+	}
+	for p, ls := range byPeer {
+		for _, l := range ls {
+			if l.GetRemotePeer() != p {
+				return fmt.Sprintf("the controller files a link whose remote peer is %d under peer %d (history: %s)", h.peerNo[l.GetRemotePeer()], h.peerNo[p], hist), key
+			}
+		}
+	}
+	for x, pid := range h.peerID {
+		for _, l := range peerLinks[x] {
+			if l.GetRemotePeer() != pid {
+				return fmt.Sprintf("GetPeerLinks(peer %d) reports a link whose remote peer is %d (history: %s)", x, h.peerNo[l.GetRemotePeer()], hist), key
+			}
+		}
+	}
 	if !quiet {
 		return "", key
+	}
+	// (e) at quiescence a held EstablishLinkWithPeer(X) directive has exactly the links with X that were
+	// established and are not closed: every live one (a request for a link to X is satisfied once X is
+	// reachable) and no link that was closed and reported lost
+	if v, k := h.holdMonitor(hist, key); v != "" {
+		return v, k
 	}
 	// (c) at quiescence no container holds a closed link
 	for k, l := range o.ldLinks {
@@ -1428,6 +1584,68 @@ func (h *hist) monitors(o obs, quiet bool) (string, string) {
 	return "", key
 }
 
+// holdMonitor (h.mu held): the values of every held EstablishLinkWithPeer(X) directive against the
+// engine's own record of the links with X (established by the controller, closed, loss processed).
+func (h *hist) holdMonitor(hist, key string) (string, string) {
+	for x, vals := range h.holdVals {
+		held := map[uint64]bool{}
+		for _, ml := range vals {
+			held[ml.GetLinkUUID()] = true
+		}
+		okU := map[uint64]bool{}
+		for id, l := range h.links {
+			if h.peerOfL[id] != x || !h.estDone[id] {
+				continue
+			}
+			if !(h.closedEv[id] && h.clostDone[id]) {
+				okU[l.GetUUID()] = true
+			}
+			if !h.closedEv[id] && !held[l.GetUUID()] {
+				return fmt.Sprintf("the held EstablishLinkWithPeer(local, peer %d) directive lacks link %d, which is established with peer %d and open: the request for a link to that peer is not satisfied although the peer is linked (history: %s)", x, id, x, hist), key
+			}
+		}
+		for id, l := range h.links {
+			if h.peerOfL[id] == x && held[l.GetUUID()] && !okU[l.GetUUID()] {
+				// link objects at one (address, peer) share the uuid the value is identified by: the value is
+				// the one of them the controller still has — the one established after its loss was processed
+				// (F25), if there is one
+				kk, which := key, id
+				for j, l2 := range h.links {
+					if l2.GetUUID() == l.GetUUID() && h.lateReal[j] {
+						kk, which = "dialsys.hist:est-after-lost", j
+					}
+				}
+				return fmt.Sprintf("the held EstablishLinkWithPeer(local, peer %d) directive still has link %d, which was closed and reported lost (history: %s)", x, which, hist), kk
+			}
+		}
+	}
+	return "", key
+}
+
+// holdsSettled (no lock held): the resolvers of the held directives emit asynchronously; wait
+// (bounded) until the values are what holdMonitor asks for, so that its verdict is about a settled state.
+func (h *hist) holdsSettled() {
+	deadline := time.Now().Add(h.e.patience())
+	for time.Now().Before(deadline) {
+		h.mu.Lock()
+		v, _ := h.holdMonitor("", "")
+		h.mu.Unlock()
+		if v == "" {
+			return
+		}
+		// not (yet) what the clause asks for: it is a verdict only once the scheduler itself says that
+		// no goroutine of the process is runnable and the values have stopped changing
+		if quiet.Settle(func() int { h.mu.Lock(); defer h.mu.Unlock(); return h.holdEvs }, 500*time.Microsecond, 6, 300*time.Millisecond) {
+			h.mu.Lock()
+			v, _ = h.holdMonitor("", "")
+			h.mu.Unlock()
+			if v != "" {
+				return
+			}
+		}
+	}
+}
+
 // compare records one comparison of the settled real system with the model + the monitors.
 func (h *hist) compare(branch string) {
 	if h.lt == nil || h.ctrl == nil {
@@ -1443,6 +1661,9 @@ func (h *hist) compare(branch string) {
 		h.mu.Lock()
 		quiet = len(h.estGate)+len(h.lostGate)+len(h.clostGate)+len(h.storeGate) == 0
 		h.mu.Unlock()
+	}
+	if quiet && len(h.holds) > 0 {
+		h.holdsSettled()
 	}
 	mon, key := h.monitors(o, quiet)
 	if h.bad != "" && mon == "" {
@@ -1567,9 +1788,12 @@ func (h *hist) answerAt(a, who int) {
 	h.answer(d, who)
 }
 
-func (e *engine) scenario(gen string, f func(h *hist)) {
-	h := e.newHist(gen)
+func (e *engine) scenario(gen string, f func(h *hist)) { e.scenarioEarly(gen, false, f) }
+
+func (e *engine) scenarioEarly(gen string, early bool, f func(h *hist)) {
+	h := e.newHistEarly(gen, early)
 	defer h.finish()
+	defer h.releaseCtor()
 	f(h)
 	if h.bad == "" {
 		h.drainGates(first)
@@ -1640,6 +1864,23 @@ func (e *engine) scripted() {
 		h.drainGates(first)
 		h.answerAt(1, X)
 		h.drainGates(first)
+	})
+	// 2b'. EstablishLinkWithPeer(X) whose dial address is answered by an impostor: the impostor's link is
+	// filed under the impostor and is no value of the directive; once X answers there, the directive
+	// has exactly X's link
+	e.scenario("hold-impostor-then-x", func(h *hist) {
+		h.hold(X, 1)
+		h.answerAt(1, Y)
+		h.drainGates(first)
+		h.compare("settled.mid")
+		h.inbound(2, Y) // a second link with the impostor, from another address
+		h.drainGates(first)
+		h.compare("settled.mid")
+		h.kill(0)
+		h.drainGates(first)
+		h.answerAt(1, X)
+		h.drainGates(first)
+		h.compare("settled.mid")
 	})
 	// 2c. the same with a dial address that is a NAME (the string t.dialers is keyed with differs from
 	// the remote address string t.links is keyed with): impostor answers -> impostor leaves -> the intended
@@ -1732,6 +1973,45 @@ func (e *engine) scripted() {
 		h.answerAt(1, X)
 		h.drainGates(first)
 	})
+	// 5a. SEVERAL links with the requested peer (X also connected in from another address / is dialed at
+	// two addresses), a long-lived reference on the key of the dialed link, the DIALED link lost first:
+	// the dialer of (X, a) must be cleared and restarted although X is still linked — whoever answers
+	// at a is checked again (an impostor is refused, X is accepted later), and when the other link is
+	// lost too the key is not left holding the dead link.
+	for _, second := range []string{"inbound", "dialed"} {
+		second := second
+		e.scenario("two-links-dialed-lost-first", func(h *hist) {
+			h.hold(X, 1)
+			h.answerAt(1, X) // L0: dialed at address 1
+			h.drainGates(first)
+			if second == "inbound" {
+				h.inbound(2, X) // L1: X connects in from address 2
+			} else {
+				h.dial(X, 2) // L1: X dialed at address 2 as well
+				h.answerAt(2, X)
+			}
+			h.drainGates(first)
+			h.compare("settled.mid")
+			h.kill(0) // the dialed link is lost while X still has L1
+			h.drainGates(first)
+			h.compare("settled.mid")
+			c := h.dial(X, 1)
+			h.expectRes(c, "pending") // not the dead L0
+			h.answerAt(1, Y)          // an impostor serves address 1 now: refused
+			h.drainGates(first)
+			h.expectRes(c, "pending")
+			h.compare("settled.mid")
+			h.kill(1) // X's other link is lost as well
+			h.drainGates(first)
+			h.kill(2) // the impostor leaves
+			h.drainGates(first)
+			h.compare("settled.mid")
+			h.answerAt(1, X) // X is reachable at address 1 again
+			h.drainGates(first)
+			h.expectRes(c, "link:3")
+			h.compare("settled.mid") // the held EstablishLinkWithPeer(X) has exactly the live link
+		})
+	}
 	// 5b. a cancelled call leaves its dial attempt running: the next call for the same key shares it
 	e.scenario("cancel-redial", func(h *hist) {
 		c := h.dial(X, 1)
@@ -1782,6 +2062,54 @@ func (e *engine) scripted() {
 		h.release("clost", 0) // flushed: the container is still empty, nothing is restarted
 		h.drainGates(first)   // the routine stores the dead link
 	})
+	// 7b. known finding: a backoff that GIVES UP (max_elapsed_time). The dialer ends with an error, the
+	// routine of the key is dead, keyed does not run it again while the references stay as they are: the
+	// held EstablishLinkWithPeer(X) is never served although X becomes reachable at the address
+	e.scenario("backoff-gives-up", func(h *hist) {
+		h.boCfg = func() *backoff.Backoff {
+			return &backoff.Backoff{BackoffKind: backoff.BackoffKind_BackoffKind_EXPONENTIAL,
+				Exponential: &backoff.Exponential{InitialInterval: 2, MaxInterval: 4, MaxElapsedTime: 20}}
+		}
+		h.hold(X, 1)
+		if h.bad != "" {
+			return
+		}
+		// X is not reachable yet: more than max_elapsed_time passes, then the attempt in progress fails
+		d := h.dialerAt(1)
+		at := h.attemptOf(d)
+		if at == nil {
+			h.fail("no dial attempt is pending at address 1")
+			return
+		}
+		h.note("25 ms pass (max_elapsed_time = 20 ms)")
+		time.Sleep(25 * time.Millisecond)
+		h.mu.Lock()
+		at.done = true
+		n := len(h.attempts[at.addr])
+		h.mu.Unlock()
+		h.note(fmt.Sprintf("answer(dialer %d, by peer 0)", d))
+		at.ch <- 0
+		// does the key dial again? (a new dialFn call; judged when the scheduler reports nothing runnable)
+		again := false
+		for i := 0; i < 40 && !again; i++ {
+			quiet.Settle(func() int { h.mu.Lock(); defer h.mu.Unlock(); return len(h.attempts[at.addr]) }, 500*time.Microsecond, 6, 100*time.Millisecond)
+			h.mu.Lock()
+			again = len(h.attempts[at.addr]) > n
+			h.mu.Unlock()
+			if i >= 3 && !again {
+				break
+			}
+		}
+		if again {
+			// the code retries (the finding is gone): the history goes on as a run of the model
+			h.push(fmt.Sprintf("ans:%d:0", d))
+			h.settle()
+			h.answerAt(1, X)
+			h.drainGates(first)
+			return
+		}
+		h.fail("the dialer of key (peer 2, addr 1) gave up (dial backoff max duration exceeded); X is reachable at the address now but nothing dials it")
+	})
 	// 8. DialTptAddr directives: the resolver's decision
 	e.tptMatrix()
 }
@@ -1806,58 +2134,88 @@ func (e *engine) tptMatrix() {
 		tc{1, X, "udp", X}, tc{1, X, "nobar", X}, tc{1, X, "emptyaddr", X}, tc{1, X, "emptytype", X}, tc{0, X, "udp", X},
 		tc{1, 0, "mem", X}, tc{1, X, "empty", X})
 	for i, c := range cases {
-		c, i := c, i
-		e.scenario("tptaddr", func(h *hist) {
-			a := 1 + i%2
-			as := addrName(e.nh, a)
-			var taddr string
-			switch c.form {
-			case "mem":
-				taddr = "mem|" + as
-			case "udp":
-				taddr = "udp|" + as
-			case "nobar":
-				taddr = "mem" + as
-			case "emptyaddr":
-				taddr = "mem|"
-			case "emptytype":
-				taddr = "|" + as
-			case "empty":
-				taddr = ""
+		for _, early := range []bool{false, true} {
+			c, i, early := c, i, early
+			gen := "tptaddr"
+			if early {
+				gen = "tptaddr-early" // the directive is issued before the controller has its transport
 			}
-			// the property, stated directly: a value may only come from a directive whose source is the
-			// local peer or empty, whose target is another peer, and whose address is mem|<non-empty>
-			tid, rest, found := strings.Cut(taddr, "|")
-			expect := (c.src == 1 || c.src == 0) && c.dst != 1 && c.dst != 0 && found && tid == "mem" && rest != ""
-			call := h.tptDir(c.src, c.dst, taddr, a, expect)
-			br := "tpt.no-value"
-			if expect {
-				h.answerAt(a, c.answer)
-				h.drainGates(first)
-				if c.answer == c.dst {
-					h.expectRes(call, "link:0")
-					br = "tpt.value"
-				} else {
-					h.expectRes(call, "pending")
-					br = "tpt.impostor"
-					h.compare("settled.mid")
-					h.cancelCall(call)
+			e.scenarioEarly(gen, early, func(h *hist) {
+				a := 1 + i%2
+				as := addrName(e.nh, a)
+				var taddr string
+				switch c.form {
+				case "mem":
+					taddr = "mem|" + as
+				case "udp":
+					taddr = "udp|" + as
+				case "nobar":
+					taddr = "mem" + as
+				case "emptyaddr":
+					taddr = "mem|"
+				case "emptytype":
+					taddr = "|" + as
+				case "empty":
+					taddr = ""
 				}
-			} else {
-				time.Sleep(8 * time.Millisecond)
-				h.expectRes(call, "pending")
-				if call.cancel != nil {
+				// the property, stated directly: a value may only come from a directive whose source is the
+				// local peer or empty, whose target is another peer, and whose address is mem|<non-empty>
+				tid, rest, found := strings.Cut(taddr, "|")
+				expect := (c.src == 1 || c.src == 0) && c.dst != 1 && c.dst != 0 && found && tid == "mem" && rest != ""
+				call := h.tptDir(c.src, c.dst, taddr, a, expect)
+				br := "tpt.no-value"
+				if expect {
+					h.answerAt(a, c.answer)
+					h.drainGates(first)
+					if c.answer == c.dst {
+						h.expectRes(call, "link:0")
+						br = "tpt.value"
+					} else {
+						h.expectRes(call, "pending")
+						br = "tpt.impostor"
+						h.compare("settled.mid")
+						h.cancelCall(call)
+					}
+				} else {
+					// no dialer may have been started for this directive. If one was, the most favourable
+					// environment answers it (the target itself — for a self-dial an endpoint presenting the
+					// local key — at whatever address is being dialed) and everything parked is let through:
+					// the directive must still not get a value (monitor (a) of the final comparison)
+					h.busIdle()
+					who := c.dst
+					if who == 0 {
+						who = X
+					}
+					if h.answerStray(who) {
+						br = "tpt.no-value.dialed"
+						h.fail("a DialTptAddr directive that must not be resolved started a dial attempt")
+						h.drainAll()
+					}
+					h.expectRes(call, "pending")
+				}
+				mon := ""
+				h.mu.Lock()
+				if expect && c.answer == c.dst && (!call.done || call.lnk == nil) {
+					mon = fmt.Sprintf("a DialTptAddr directive (src %d, dst %d, %s address) whose target answers at the address never got a value", c.src, c.dst, c.form)
+				}
+				if !expect && call.done && call.lnk != nil {
+					mon = fmt.Sprintf("a DialTptAddr directive (src %d, dst %d, %s address) that must not be resolved (source / self / address / transport type) got a value", c.src, c.dst, c.form)
+				}
+				h.mu.Unlock()
+				if !expect && call.cancel != nil {
 					call.cancel()
 				}
-			}
-			mon := ""
-			h.mu.Lock()
-			if expect && c.answer == c.dst && (!call.done || call.lnk == nil) {
-				mon = fmt.Sprintf("a DialTptAddr directive (src %d, dst %d, %s address) whose target answers at the address never got a value", c.src, c.dst, c.form)
-			}
-			h.mu.Unlock()
-			e.rep.Compare(fmt.Sprintf("dialsys.tpt src=%d dst=%d form=%s answer=%d", c.src, c.dst, c.form, c.answer), br, br, br, "dialsys.tpt:"+c.form, mon)
-		})
+				op := fmt.Sprintf("dialsys.tpt src=%d dst=%d form=%s answer=%d early=%v", c.src, c.dst, c.form, c.answer, early)
+				if early {
+					br += ".early"
+				}
+				want := strings.TrimSuffix(strings.TrimSuffix(br, ".early"), ".dialed")
+				if early {
+					want += ".early"
+				}
+				e.rep.Compare(op, want, br, br, "dialsys.tpt:"+c.form, mon)
+			})
+		}
 	}
 	// the decision function alone, model vs a direct reference on generated directives
 	n := 200 * e.a.Scale
@@ -1893,10 +2251,13 @@ func (e *engine) tptMatrix() {
 }
 
 // random runs a generated history.
-func (e *engine) random(eager bool) {
+func (e *engine) random(eager, multi bool) {
 	gen := "random"
 	if eager {
 		gen = "eager"
+	}
+	if multi {
+		gen += "-multi"
 	}
 	h := e.newHist(gen)
 	defer h.finish()
@@ -1907,7 +2268,25 @@ func (e *engine) random(eager bool) {
 	if e.rng.Intn(3) == 0 {
 		dialAddrs = append(dialAddrs, 101)
 	}
-	if e.rng.Intn(3) == 0 {
+	if multi {
+		// topology class: a held reference on (X, 1) whose dialed link exists next to a second link with X
+		// (inbound from / dialed at another address); what is lost first, and who answers next, is random
+		naddr = 2
+		dialAddrs = []int{1, 2}
+		h.hold(X, 1)
+		h.answerAt(1, X)
+		h.drainGates(pick)
+		if e.rng.Intn(2) == 0 {
+			h.inbound(2, X)
+		} else {
+			h.dial(X, 2)
+			h.answerAt(2, X)
+		}
+		h.drainGates(pick)
+		if h.bad == "" && e.rng.Intn(2) == 0 {
+			h.kill(e.rng.Intn(2))
+		}
+	} else if e.rng.Intn(3) == 0 {
 		h.hold(X, 1)
 	}
 	steps := 7 + e.rng.Intn(8)
@@ -1977,6 +2356,7 @@ func (e *engine) run() {
 	e.rep.Rule = "histories of the real dialing subsystem of one transport (real Controller + real transport_quic.Transport, real QUIC/TLS handshakes over in-memory pipes, 2–3 remote keys presenting 1–2 shared address strings): DialPeerAddr / held EstablishLinkWithPeer / DialTptAddr requests; every dial attempt answered by the intended peer, an impostor or nobody as the engine decides; inbound sessions; remote kills; HandleLinkEstablished / handleLinkLost / HandleLinkLost / the container store forced through gates; every history replayed as a run of Bifrost.DialSys and the settled state compared (containers per key, t.dialers, address table, controller tables, what each caller got); monitors: authenticity of every stored/returned/pushed link, no caller handed a link reported lost before its call, no closed link in a container at quiescence, no unresolved key without a dial attempt in progress, DialTptAddr values only for resolvable directives; distinct = distinct history"
 	e.rep.Require(
 		"settled.final", "settled.mid", "tpt.value", "tpt.no-value", "tpt.impostor",
+		"tpt.value.early", "tpt.no-value.early", "tpt.impostor.early",
 		"resolve.key", "resolve.skip-src", "resolve.skip-self", "resolve.skip-parse", "resolve.skip-type", "resolve.skip-empty",
 		"step.check.free", "step.check.occupied", "step.check.yield",
 		"step.attach.new", "step.attach.share", "step.attach.share-other-peer",
@@ -1990,7 +2370,7 @@ func (e *engine) run() {
 	e.scripted()
 	n := 6 * e.a.Scale
 	for i := 0; i < n; i++ {
-		e.random(i%2 == 0)
+		e.random(i%2 == 0, i%3 == 2)
 	}
 }
 
